@@ -141,7 +141,13 @@ def run(ctx):
             n3 += formspaths.run_forms(s, 'direct', 0, subset=F[(ctx.seed + 1) % 2::2], ttl='passed')
             n3 += formspaths.run_forms(s, 'script-lit', 0, subset=F[ctx.seed % 4::4], ttl='passed')
             n3 += formspaths.run_forms(s, 'multi', 0, subset=F[(ctx.seed + 2) % 4::4], ttl='live')
+            n3 += formspaths.run_forms(s, 'script-lit', 0, subset=F[(ctx.seed + 1) % 4::4], ttl='live')
+            # the commands only the script executor implements (in-place modifications keep the deadline, absent keys stay absent)
+            n3 += formspaths.run_forms(s, 'script-lit', 0, subset=forms.EXTRA_FORMS[ctx.seed % 2::2], ttl='live')
+            n3 += formspaths.run_forms(s, 'script-lit', 0, subset=forms.EXTRA_FORMS[(ctx.seed + 1) % 2::2], ttl='passed')
         else:
+            for ttl in ('live', 'passed'):
+                n3 += formspaths.run_forms(s, 'script-lit', 0, subset=forms.EXTRA_FORMS, ttl=ttl)
             for path in ('direct', 'multi', 'script-lit'):
                 for ttl in ('live', 'passed'):
                     n3 += formspaths.run_forms(s, path, 0, ttl=ttl)
